@@ -3,7 +3,9 @@
 model:        specs/RelAlg.tla   reference semantics Eval / Accepts of the documented grammar (projection, aliases,
                                  expressions under SQL three-valued logic, where, groupby + aggregates, having,
                                  orderby, limit/offset, five join kinds, references, nested statements, set operations)
-              specs/Reads.tla    requirement: Read(f, s) = Eval(s, storage-now(f)); Mutate / Restart / reads through other feeds
+              specs/Reads.tla    requirement: Read(f, s) = Eval(s, storage-now(f)); Mutate / Restart / reads through other feeds /
+                                 Break (the storage becomes unavailable: reads are unconstrained until it is back, and
+                                 leave no trace in what later reads return)
               specs/FeedCacheImpl.tla  as-is result cache (frames per process, disk under FORML_HOME, lazy registration)
               specs/FactorsImpl.tla    as-is predicate factorisation (predicts the parser crashes of the listed findings)
 code -> spec: PARSER LEVEL.  harness.dslgen statements (all up to the depth bound) + harness.relgen seeded random
@@ -13,7 +15,9 @@ code -> spec: PARSER LEVEL.  harness.dslgen statements (all up to the depth boun
 spec -> code: READER LEVEL.  TLC enumerates every history of {Read(f,s), Mutate(f), Restart} up to the depth bound for
               three feed configurations (two alchemy feeds over SQLite files with equally named tables, two monolite
               feeds over CSV files, one of each) together with the result each read must return; every history is
-              replayed on real feeds, one OS process per process of the history (harness.feedproc).
+              replayed on real feeds, one OS process per process of the history (harness.feedproc).  A fourth
+              configuration (alchemy + two monolite feeds) adds storage faults: Break(f), storages that do not exist
+              at the start - histories in which a read meets an unavailable storage and a later one an available one.
 TLC's -coverage cannot be used with RelAlg (its cost-model start-up does not terminate within minutes on the mutually
 recursive evaluator, measured); vacuity is guarded by explicit counts instead (states per action, verdict per observation).
 """
@@ -318,9 +322,15 @@ def describe(ast):
 READER_STMTS = None
 READER_CONTENTS = [{'B': [[1, 'a', 10]]}, {'B': [[1, 'b', 20], [2, 'a', 30]]},
                    {'B': [[3, 'c', 40], [4, 'a', 50], [5, 'b', 60]]}]
-CONFIGS = [('alchemy', 'FeedsAB', {'f1': 'alchemy', 'f2': 'alchemy'}),
-           ('monolite', 'FeedsM', {'m1': 'monolite', 'm2': 'monolite'}),
-           ('mixed', 'FeedsMixed', {'f1': 'alchemy', 'm1': 'monolite'})]
+# name, Feeds definition, feed kinds, Faulty (storage can become unavailable), Unavail0 (no storage at the start),
+# statements read (None: all), histories replayed in the quick / thorough tier
+CONFIGS = [('alchemy', 'FeedsAB', {'f1': 'alchemy', 'f2': 'alchemy'}, (), (), None, (450, 2500)),
+           ('monolite', 'FeedsM', {'m1': 'monolite', 'm2': 'monolite'}, (), (), None, (450, 2500)),
+           ('mixed', 'FeedsMixed', {'f1': 'alchemy', 'm1': 'monolite'}, (), (), None, (450, 2500)),
+           # histories with storage faults: an alchemy and a lazy feed whose storages do not exist at the start (and
+           # can be lost again), a second lazy feed over a sound storage; two of the statements
+           ('faulty', 'FeedsFM', {'f1': 'alchemy', 'm1': 'monolite', 'm2': 'monolite'}, ('f1', 'm1'), ('f1', 'm1'),
+            (1, 3), (300, 2500))]
 
 
 def reader_statements():
@@ -330,12 +340,14 @@ def reader_statements():
             above(15), above(35)]
 
 
-def reads_cfg(name, feeds_def, lazy, depth, invariants):
+def reads_cfg(name, feeds_def, lazy, depth, invariants, faulty=(), unavail=(), stmts=None):
     path = os.path.abspath(f'reads-{name}-{"-".join(invariants)}.cfg')
+    names = lambda xs: '{' + ', '.join(chr(34) + x + chr(34) for x in xs) + '}'
     with open(path, 'w') as fh:
         fh.write(f'SPECIFICATION ISpec\nCONSTANTS Feeds <- {feeds_def}\n Depth = {depth}\n'
-                 f' Lazy = {{{", ".join(chr(34) + x + chr(34) for x in lazy)}}}\n Lits <- NoLits\n'
-                 + ''.join(f'INVARIANT {i}\n' for i in invariants) + 'CHECK_DEADLOCK FALSE\n')
+                 f' Lazy = {names(lazy)}\n Faulty = {names(faulty)}\n Unavail0 = {names(unavail)}\n'
+                 + (' ReadStmts <- AllStmts\n' if stmts is None else f' ReadStmts = {{{", ".join(map(str, stmts))}}}\n')
+                 + ' Lits <- NoLits\n' + ''.join(f'INVARIANT {i}\n' for i in invariants) + 'CHECK_DEADLOCK FALSE\n')
     return path
 
 
@@ -366,39 +378,72 @@ class Zygote:
             self.proc.kill()
 
 
-def replay_histories(jobs):
+class Zygotes:
+    """PROCS feed processes (harness.feedproc) started in the background; ``run`` works a list of requests through them."""
+
+    def __init__(self, n=None):
+        self.n = n or PROCS
+        self.zygotes, self.errors = [], []
+        self._starter = threading.Thread(target=self._start)
+        self._starter.start()
+
+    def _start(self):
+        def one():
+            try:
+                self.zygotes.append(Zygote())
+            except BaseException as exc:  # pylint: disable=broad-except
+                self.errors.append(exc)
+
+        threads = [threading.Thread(target=one) for _ in range(self.n)]
+        for t in threads:
+            t.start()
+        for t in threads:
+            t.join()
+
+    def run(self, jobs):
+        """jobs: [request...] -> {id: reply}."""
+        self._starter.join()
+        if self.errors or not self.zygotes:
+            raise tlc.MachineryError(f'feed processes did not start: {self.errors[:1]!r}')
+        replies, lock, it, errors = {}, threading.Lock(), iter(jobs), []
+
+        def worker(zyg):
+            try:
+                while True:
+                    with lock:
+                        req = next(it, None)
+                    if req is None:
+                        return
+                    rep = zyg.ask(req)
+                    with lock:
+                        replies[req['id']] = rep
+            except BaseException as exc:  # pylint: disable=broad-except
+                errors.append(exc)
+
+        threads = [threading.Thread(target=worker, args=(z,)) for z in self.zygotes]
+        for t in threads:
+            t.start()
+        for t in threads:
+            t.join()
+        if errors:
+            raise tlc.MachineryError(f'history replay failed: {errors[0]!r}')
+        return replies
+
+    def close(self):
+        self._starter.join()
+        for z in self.zygotes:
+            z.close()
+        self.zygotes = []
+
+
+def replay_histories(jobs, zygotes=None):
     """jobs: [request...] -> {id: reply}; PROCS zygotes work through the queue."""
-    replies, lock, it = {}, threading.Lock(), iter(jobs)
-    errors = []
-
-    def worker():
-        try:
-            zyg = Zygote()
-        except BaseException as exc:  # pylint: disable=broad-except
-            errors.append(exc)
-            return
-        try:
-            while True:
-                with lock:
-                    req = next(it, None)
-                if req is None:
-                    return
-                rep = zyg.ask(req)
-                with lock:
-                    replies[req['id']] = rep
-        except BaseException as exc:  # pylint: disable=broad-except
-            errors.append(exc)
-        finally:
-            zyg.close()
-
-    threads = [threading.Thread(target=worker) for _ in range(min(PROCS, max(1, len(jobs))))]
-    for t in threads:
-        t.start()
-    for t in threads:
-        t.join()
-    if errors:
-        raise tlc.MachineryError(f'history replay failed: {errors[0]!r}')
-    return replies
+    own = zygotes or Zygotes(min(PROCS, max(1, len(jobs))))
+    try:
+        return own.run(jobs)
+    finally:
+        if zygotes is None:
+            own.close()
 
 
 def read_finding(hist, feeds, k, reads):
@@ -417,48 +462,60 @@ def read_finding(hist, feeds, k, reads):
     return None
 
 
-def reader_level(chk):
+def reader_level(chk, zygotes=None):
     depth = 3 if chk.quick else 4
     stmts = reader_statements()
     summary = {}
-    for name, feeds_def, feeds in CONFIGS:
+    for name, feeds_def, feeds, faulty, unavail, stmt_ids, caps in CONFIGS:
         lazy = [f for f, kind in feeds.items() if kind == 'monolite']
+        extra = {'faulty': faulty, 'unavail': unavail, 'stmts': stmt_ids}
         # the as-is cache model does NOT refine the requirement: TLC has to exhibit a stale / foreign read
-        res = chk.tlc('FeedCacheImpl', reads_cfg(name, feeds_def, lazy, depth, ['Fresh']), expect_ok=False, workers=2,
-                      coverage=False)
+        res = chk.tlc('FeedCacheImpl', reads_cfg(name, feeds_def, lazy, depth, ['Fresh'], **extra), expect_ok=False,
+                      workers=2, coverage=False)
         if res.violated != 'Fresh':
             raise tlc.MachineryError(f'FeedCacheImpl({name}) no longer exhibits a read differing from the requirement')
         # the requirement itself + export of every history with the required and the as-is result of each read
-        res = chk.tlc('FeedCacheImpl', reads_cfg(name, feeds_def, lazy, depth, ['OwnStorageNow', 'Export']), workers=4,
-                      coverage=False)
+        res = chk.tlc('FeedCacheImpl', reads_cfg(name, feeds_def, lazy, depth, ['OwnStorageNow', 'Export'], **extra),
+                      workers=4, coverage=False)
         hists = res.json_prints()
-        alphabet = len(feeds) * len(stmts) + len(feeds) + 1        # reads, mutations, restart
-        want = sum(alphabet ** k for k in range(depth + 1)) if len(feeds) == 2 else None
+        # reads, mutations, storage losses, restart
+        alphabet = len(feeds) * len(stmt_ids or stmts) + len(feeds) + len(faulty) + 1
+        want = sum(alphabet ** k for k in range(depth + 1))
         if not hists or res.distinct != want or len(hists) != alphabet ** depth:
             raise tlc.MachineryError(f'FeedCacheImpl({name}): {res.distinct} states / {len(hists)} histories exported, '
                                      f'expected {want} / {alphabet ** depth}')
         acts = collections.Counter(a['a'] for h in hists for a in h['hist'])
-        for act, label in (('read', 'IRead'), ('mutate', 'IMutate'), ('restart', 'IRestart')):
+        acts['read-unavailable'] = sum(1 for h in hists for r in h['reads'] if not r['avail'])
+        for act, label in (('read', 'IRead'), ('mutate', 'IMutate'), ('restart', 'IRestart')) + \
+                ((('break', 'IBreak'), ('read-unavailable', 'IRead[storage unavailable]')) if faulty else ()):
             if not acts[act]:
                 raise tlc.MachineryError(f'vacuous run: action {label} never taken')
             chk.coverage[f'FeedCacheImpl.{label}[{name}]'] = (acts[act], acts[act])
         # a history that ends in a read determines all reads of its prefixes: the others add nothing
         hists = [h for h in hists if h['hist'][-1]['a'] == 'read']
-        cap = 450 if chk.quick else 2500        # TLC explored all of them; a seeded sample is replayed on the real feeds
+        if faulty:
+            # the fault-free histories are the subject of the other configurations: keep those in which some read meets
+            # an unavailable storage and a LATER read an available one (the read the requirement binds)
+            hists = [h for h in hists if any(not r['avail'] and any(q['avail'] for q in h['reads'][k + 1:])
+                                             for k, r in enumerate(h['reads']))]
+        cap = caps[0] if chk.quick else caps[1]     # TLC explored all of them; a seeded sample is replayed on the real feeds
         if len(hists) > cap:
             random.Random(chk.seed).shuffle(hists)
             hists = hists[:cap]
-        jobs = [{'id': i, 'feeds': feeds, 'start': {f: k + 1 for k, f in enumerate(feeds)}, 'contents': READER_CONTENTS,
-                 'stmts': stmts, 'hist': h['hist']} for i, h in enumerate(hists)]
+        jobs = [{'id': i, 'feeds': feeds, 'start': {f: k + 1 for k, f in enumerate(feeds)}, 'unavail': list(unavail),
+                 'contents': READER_CONTENTS, 'stmts': stmts, 'hist': h['hist']} for i, h in enumerate(hists)]
         t0 = time.time()
-        replies = replay_histories(jobs)
-        stale = drift = 0
+        replies = replay_histories(jobs, zygotes)
+        stale = drift = unbound = 0
         for i, h in enumerate(hists):
             got = replies[i]['reads']
             if len(got) != len(h['reads']):
                 raise tlc.MachineryError(f'history replay returned {len(got)} reads for {len(h["reads"])}')
             good = True
             for k, (real, exp) in enumerate(zip(got, h['reads'])):
+                if not exp['avail']:
+                    unbound += 1        # no storage at that moment: the property does not say what the read returns
+                    continue
                 rows = sorted(real['rows']) if 'rows' in real else None
                 if rows == sorted(exp['rows']):
                     continue
@@ -469,17 +526,22 @@ def reader_level(chk):
                 stale += finding is not None
                 what = (f'{name}: read #{k + 1} of history {short(h["hist"])} through {exp["f"]} returned '
                         + (f'{real.get("error")}' if rows is None else f'{rows}') + f' instead of {sorted(exp["rows"])}')
-                chk.fail(what, {'level': 'reader', 'config': name, 'feeds': feeds, 'hist': h['hist'], 'read': k,
-                                'returned': real, 'required': exp['rows'], 'as_is_model': exp['impl']}, finding=finding)
+                chk.fail(what, {'level': 'reader', 'config': name, 'feeds': feeds, 'unavail': list(unavail),
+                                'hist': h['hist'], 'read': k, 'returned': real, 'required': exp['rows'],
+                                'as_is_model': exp['impl']}, finding=finding)
                 break
-            if any('rows' in real and sorted(real['rows']) != sorted(exp['impl']) for real, exp in zip(got, h['reads'])):
+            if any(('rows' in real) == exp['implerr'] or ('rows' in real and sorted(real['rows']) != sorted(exp['impl']))
+                   for real, exp in zip(got, h['reads'])):
                 drift += 1
             if good:
                 chk.validated()
                 if i % 211 == 0:
-                    chk.sample({'config': name, 'history': short(h['hist']), 'reads': [r['rows'] for r in got]})
+                    chk.sample({'config': name, 'history': short(h['hist']),
+                                'reads': [r.get('rows', 'raised') for r in got]})
         summary[name] = {'histories_replayed': len(hists), 'depth': depth, 'with_a_stale_or_foreign_read': stale,
                          'reads_not_predicted_by_cache_model': drift, 'wall_s': round(time.time() - t0, 1)}
+        if faulty:
+            summary[name]['reads_of_an_unavailable_storage_(unconstrained)'] = unbound
     chk.extra['reader_level'] = summary
     chk.extra.setdefault('impl_model_drift', {})['reader_reads_not_predicted_by_FeedCacheImpl'] = \
         sum(s['reads_not_predicted_by_cache_model'] for s in summary.values())
@@ -499,14 +561,20 @@ def main(chk):
     warnings.simplefilter('ignore')
     logging.disable(logging.CRITICAL)
     chk.extra['as_is_model_variant'] = {'FactorsImpl.Fixed': relgen.detect_fixes()}
-    parser_level(chk)
-    reader_level(chk)
+    zygotes = Zygotes()       # the feed processes of the reader level warm up while the parser level runs
+    try:
+        parser_level(chk)
+        reader_level(chk, zygotes)
+    finally:
+        zygotes.close()
     chk.assume('values are compared in an integer encoding: NULL sentinel, booleans 0/1, integral floats as integers, '
                'strings as order preserving codes, a top-level avg as a normalised rational')
     chk.assume('statements outside the compared semantics are excluded by harness.relgen.excluded on the statement alone '
                '(division, non-literal modulus, avg inside expressions, non-integral float literals, nullable ordering keys, '
                'nested windows without a total order, non-numeric casts, ceil/floor, bare aggregate mixes, nested orderings, '
                'ambiguous reference names; nested set operations are not run on SQLite)')
+    chk.assume('an unavailable storage = the table is missing from the SQLite file / the CSV file does not exist; what a read '
+               'returns while its storage is unavailable is not constrained (the property quantifies over contents)')
     chk.assume('Restart = a forked interpreter that imports forml freshly with the same FORML_HOME (harness.feedproc)')
     chk.assume('TLC -coverage is not usable with RelAlg.tla; action / verdict counts are checked explicitly instead')
 
@@ -525,7 +593,7 @@ def replay(chk, path):
         print('TLC verdict (wf, codes per outcome, as-is crash):', verdict)
         return 0 if all(c == 1 for c in verdict[1][0]) else 1
     jobs = [{'id': 0, 'feeds': rep['feeds'], 'start': {f: k + 1 for k, f in enumerate(rep['feeds'])},
-             'contents': READER_CONTENTS, 'stmts': reader_statements(), 'hist': rep['hist']}]
+             'unavail': rep.get('unavail', []), 'contents': READER_CONTENTS, 'stmts': reader_statements(), 'hist': rep['hist']}]
     got = replay_histories(jobs)[0]['reads'][rep['read']]
     print('returned now:', got, 'required:', rep['required'])
     return 0 if 'rows' in got and sorted(got['rows']) == sorted(rep['required']) else 1
